@@ -202,7 +202,13 @@ PROPS = {'history': prop_history, 'callstack_history': prop_callstack_history}
 
 
 def strategy():
-    fspec = st.fixed_dictionaries({'programs': SC.programs_strategy(2, 3, 5), 'schedule': st.lists(st.integers(0, 2), max_size=60),
+    special = st.one_of(
+        st.tuples(st.just('tracesingle'), st.just('TRACE_DATA_THREAD_TERMINATE'), st.sampled_from([0, 4, 7, 11, 14, 18, 21]), st.integers(0, 3), st.integers(0, 15)),
+        st.tuples(st.just('threadname'), st.just(''), S.u64, st.integers(0, 3), st.integers(0, 15)),
+        st.tuples(st.just('globalstring'), st.just(''), S.u64, st.integers(0, 3), st.integers(0, 15))).map(list)
+    op = st.one_of(SC.op_strategy(), SC.op_strategy(), special)
+    programs = st.lists(st.lists(op, min_size=1, max_size=5), min_size=2, max_size=3)
+    fspec = st.fixed_dictionaries({'programs': programs, 'schedule': st.lists(st.integers(0, 2), max_size=60),
                                    'dynamic': st.sampled_from([False, False, True]), 'unmapped_last': st.booleans()})
     cfg = st.fixed_dictionaries({
         'tid_i': st.sampled_from([0, 0, 1, 2, 3, 4]), 'process_i': st.sampled_from([0, 0, 0, 1, 2, 3, 4, 5]),
